@@ -1,4 +1,5 @@
 import VerifModel.Driver.Cmp
+import VerifModel.Driver.Cont
 /-
   verifdrv — line-protocol driver: one operation per input line, one canonical
   reply line.  `ERR bad-op` for anything a handler does not recognise.
@@ -6,7 +7,7 @@ import VerifModel.Driver.Cmp
 open VerifModel
 
 def handlers : List (List String → Option String) :=
-  [Driver.Cmp.handle]
+  [Driver.Cmp.handle, Driver.Cont.handle]
 
 def step (line : String) : String :=
   let args := (line.trimAscii.toString.splitOn " ").filter (· ≠ "")
